@@ -1,6 +1,7 @@
 (* C18 — the stages compose: cluster centroids map back to themselves. *)
 From Coq Require Import ZArith List Bool.
-From CTM Require Import Base.Sx Model.Vote Proofs.CorrP Proofs.VoteMainP.
+From Coq Require Import Permutation Sorted.
+From CTM Require Import Base.Sx Model.Vote Proofs.CorrP Proofs.VoteP Proofs.VoteMainP Proofs.CentroidP.
 Import ListNotations.
 Open Scope Z_scope.
 
@@ -20,6 +21,53 @@ Theorem c18_centroid_partial : forall q refs (owners : list Z) S l rl i,
   nth i owners (-1) = nth l owners (-1).
 Proof. exact centroid_wins. Qed.
 Print Assumptions c18_centroid_partial.
+
+(* ... lifted to the whole vote at a node: when that holds for EVERY drawn subset, every
+   iteration is won by a leaf of the same child, which therefore gets all the votes and
+   every other child none ... *)
+Theorem c18_centroid_unanimous_partial : forall q refs (owners : list Z) subsets l rl winners,
+  nth_error refs l = Some rl ->
+  Forall (centroid_on q refs owners l rl) subsets ->
+  tally q refs subsets = Some winners ->
+  length winners = length subsets /\
+  Forall (fun w => (w < length refs)%nat) winners /\
+  Forall (fun w => nth w owners (-1) = nth l owners (-1)) winners /\
+  votes_for owners winners (nth l owners (-1)) = length subsets /\
+  (forall c, c <> nth l owners (-1) -> votes_for owners winners c = 0%nat).
+Proof. exact centroid_unanimous. Qed.
+Print Assumptions c18_centroid_unanimous_partial.
+
+(* ... so choose_node, whatever the tie order of its sort and however many runners-up are
+   requested, reports that child with bootstrapping probability 1 (all `length subsets`
+   votes) and an empty runner-up list -- at every node on the path, for every bootstrap
+   factor (the factor only changes which subsets are drawn) *)
+Theorem c18_centroid_probability_one_partial :
+  forall q refs (owners : list Z) subsets l rl winners order (n_assign : nat) w wv rs,
+  nth_error refs l = Some rl -> length owners = length refs ->
+  subsets <> [] ->
+  Forall (centroid_on q refs owners l rl) subsets ->
+  tally q refs subsets = Some winners ->
+  Permutation order (zdistinct owners) ->
+  StronglySorted (fun a b => (b <= a)%nat) (map (votes_for owners winners) order) ->
+  (1 <= n_assign)%nat ->
+  choose_with order (votes_for owners winners) n_assign = Some (w, wv, rs) ->
+  w = nth l owners (-1) /\ wv = length subsets /\ rs = [].
+Proof. exact centroid_probability_one. Qed.
+Print Assumptions c18_centroid_probability_one_partial.
+
+(* non-vacuity: three leaves under two children, the cell is leaf 2's profile, two subsets on
+   which it is not flat; leaf 0 is flat on them and leaf 1 imperfectly correlated *)
+Example c18_example :
+  let q := [8; 0; 16; 24] in let refs := [[0; 8; 0; 0]; [16; 0; 32; 50]; [8; 0; 16; 24]] in
+  let owners := [1; 1; 2] in
+  tally q refs [[0%nat; 2%nat; 3%nat]; [0%nat; 1%nat; 3%nat]] = Some [2%nat; 2%nat] /\
+  votes_for owners [2%nat; 2%nat] 2 = 2%nat /\ votes_for owners [2%nat; 2%nat] 1 = 0%nat /\
+  choose_with [2; 1] (votes_for owners [2%nat; 2%nat]) 3 = Some (2, 2%nat, []).
+Proof. vm_compute. repeat split; reflexivity. Qed.
+Example c18_example_hypotheses :
+  Forall (centroid_on [8; 0; 16; 24] [[0; 8; 0; 0]; [16; 0; 32; 50]; [8; 0; 16; 24]] [1; 1; 2] 2 [8; 0; 16; 24])
+         [[0%nat; 2%nat; 3%nat]; [0%nat; 1%nat; 3%nat]].
+Proof. exact centroid_example_ok. Qed.
 
 (* the full statement fails on a subset on which the centroid is flat: all correlations are 0
    by the constant-row convention and the first leaf wins, although no other leaf is
